@@ -73,3 +73,28 @@ check('C14', 'exploration',
       'PVV, KCV and component combination are compared with an independent implementation of the published algorithms. Inputs whose ciphertext holds exactly 0, 1, 2 or 3 decimal digits (so the second scan supplies 4, 3, 2, 1 digits) are constructed by decrypting shaped blocks, with a floor on the count per class.',
       'cryptography is used only to propose candidate blocks quickly; each is confirmed with the reference cipher, which alone decides.',
       'DESIGN.md section 4 C14')
+check('C06', 'exploration',
+      'Hypothesis rule-based state machine over several live IpmWriter/IpmReader instances (model: per-file message list + per-reader cursor) and @given lists of up to 400 heterogeneous messages',
+      'Writers and readers on different files are created, used and closed in interleavings chosen by Hypothesis; every read is compared with the reader\'s own model and its record counter with its own count, so any shared state shows up. Long heterogeneous lists (to 400 records, tens of blocks) are round-tripped in VBS and 1014 form. Histories are sampled, not exhausted.',
+      'Interleaving is of calls within one thread. Failing histories are logged with full arguments and replay as a plain script.',
+      'DESIGN.md section 4 C06')
+check('C17', 'exploration',
+      'enumeration of block counts x 8 encodings x blocking over IpmWriter output + Hypothesis messages; boundary enumeration of every invalid class',
+      'Writer-produced files are grown to exactly 1..10 and 20 blocks in four ASCII-family and four EBCDIC-family encodings, blocked and unblocked, and inspected; each invalid class is enumerated at its boundaries (lengths 0..24, first length around three maxima, each of the 127 single bits).',
+      'An unblocked file with 0x40 0x40 at bytes 1012-1013 is a don\'t-care for isBlocked.',
+      'DESIGN.md section 4 C17')
+check('C18', 'exploration',
+      'Hypothesis synthetic extract files (index, trailer, interleaved rows incl. look-alike foreign tables) in compressed and expanded form vs independent slicing; CSV parsed back; refusal cases',
+      'Extract files are synthesised with random index assignments, tables without rows, foreign tables whose ids differ only in the last characters, interleaved rows and trailer lines, in both representations, four encodings, blocked and unblocked, over the packaged tables and generated layouts. Rows, timestamps, codes and every column are compared with an independent slicing, the CSV tool output is parsed back, and the two refusal cases are checked for each file.',
+      'Sub-ids never equal "REC"; row text is printable (rows also travel through CSV).',
+      'DESIGN.md section 4 C18')
+check('C19', 'exploration',
+      'Hypothesis writer-produced IPM files (canonical and non-canonical PDS carriers, binary DE55) and arbitrary-byte parameter files through all four tools; differential read-back under A and B + byte-exact return conversion',
+      'Every ordered pair of {latin_1, cp500, cp037} and every combination of VBS/1014 input and output is driven through mci_ipm_encode (function and command), mideu convert, mci_ipm_param_encode (function and command) and paramconv on generated files; records must read back equal under B and the return conversion must reproduce the original bytes.',
+      'Inputs are written by the library\'s writers; the three encodings share one 256-character repertoire.',
+      'DESIGN.md section 4 C19')
+check('C20', 'exploration',
+      'Hypothesis CSV tables (boundary lengths, CSV metacharacters, typed cells, packaged and generated column lists) through mci_csv_to_ipm then mci_ipm_to_csv via functions and command entry points on real files; supplied-cell comparison',
+      'Tables of 1..40 rows over the input-capable output columns are converted to IPM and back in three encodings, blocked and unblocked, through the function entry points and through cli_run on real files; every supplied cell must come back equal (text exactly, numbers numerically, date-times after parsing).',
+      'Empty cells mean absent; cells hold no control characters; python-dateutil is installed.',
+      'DESIGN.md section 4 C20')
